@@ -162,6 +162,13 @@ Proof.
       * intros Hv H. apply Forall_cons_iff in H as [Ha Hb]. constructor; [exact Ha|apply I4; assumption].
 Qed.
 
+Lemma sset_Forall (P : Z * Z -> Prop) b v h : P (b, v) -> Forall P h -> Forall P (sset b v h).
+Proof.
+  intros Hv H. induction h as [|[k v0] r IH]; cbn; [constructor; [exact Hv|constructor]|].
+  apply Forall_cons_iff in H as [H1 H2]. destruct (b <? k); [constructor; [exact Hv|constructor; assumption]|].
+  destruct (b =? k); [constructor; assumption|constructor; [exact H1|apply IH; exact H2]].
+Qed.
+
 (* ---- the invariant ---------------------------------------------------------------------------------------------------------- *)
 Definition share_sum (awh : Z -> list (Z * Z)) (e : Z) (L : list Z) : Z := sumZ (map (fun u => eff (awh u) e) L).
 
@@ -174,7 +181,10 @@ Record WInv (st : state) : Prop := mkWInv {
   w_next : forall u, eff (s_awh st u) (s_epoch st + 1) = aget0 u (s_aw st);
   w_snap : Forall (fun x => fst x <= s_epoch st /\ 0 <= snd x) (s_snap st);
   w_share : forall e g, aget e (s_snap st) = Some g -> forall L, NoDup L -> share_sum (s_awh st) e L <= g;
-  w_pre : aget (s_epoch st) (s_snap st) = None -> forall u, eff (s_awh st u) (s_epoch st) <= aget0 u (s_aw st)
+  w_pre : aget (s_epoch st) (s_snap st) = None -> forall u, eff (s_awh st u) (s_epoch st) <= aget0 u (s_aw st);
+  w_epoch : 0 <= s_epoch st;
+  w_keys : forall u, Forall (fun x => 0 < fst x) (s_awh st u);
+  w_last : forall u l, aget u (s_last st) = Some l -> l <= s_epoch st /\ Forall (fun x => l < fst x) (s_awh st u)
 }.
 
 Lemma aget_in k v l : aget k l = Some v -> In (k, v) l.
@@ -206,14 +216,14 @@ Lemma weight_change st st2 r delta (snap2 : list (Z * Z)) :
   s_aw st2 = aset r (aget0 r (s_aw st) + delta) (s_aw st) ->
   0 <= aget0 r (s_aw st) + delta ->
   (forall a, s_awh st2 a = if a =? r then sset (s_epoch st + 1) (aget0 r (s_aw st) + delta) (s_awh st r) else s_awh st a) ->
-  s_snap st2 = snap2 ->
+  s_snap st2 = snap2 -> s_last st2 = s_last st ->
   (* either the snapshots are untouched and the weight did not decrease before the epoch's snapshot,
      or the epoch's snapshot exists / is taken now from the previous global weight *)
   ((snap2 = s_snap st /\ (0 <= delta \/ aget (s_epoch st) (s_snap st) <> None)) \/
    (aget (s_epoch st) (s_snap st) = None /\ snap2 = aset (s_epoch st) (s_gw st) (s_snap st))) ->
   WInv st2.
 Proof.
-  intros W Ee Eg Ea Hnn Eh Es Hsnap.
+  intros W Ee Eg Ea Hnn Eh Es El Hsnap.
   assert (Hh : forall a, wh_ok (s_epoch st + 1) (s_awh st2 a) /\ Forall (fun x => 0 <= snd x) (s_awh st2 a) /\
                          (forall e, e < s_epoch st + 1 -> eff (s_awh st2 a) e = eff (s_awh st a) e) /\
                          eff (s_awh st2 a) (s_epoch st + 1) = aget0 a (s_aw st2)).
@@ -250,6 +260,12 @@ Proof.
     destruct Hd as [Hd|Hd]; [|contradiction].
     destruct (Hh u) as [_ [_ [H3 _]]]. rewrite H3 by lia. rewrite Ea, aget0_aset. pose proof (w_pre _ W Hn u) as Hp.
     destruct (u =? r) eqn:E; [apply Z.eqb_eq in E; subst u; lia|exact Hp].
+  - rewrite Ee. apply (w_epoch _ W).
+  - intros u. rewrite Eh. destruct (u =? r); [|apply (w_keys _ W)].
+    apply sset_Forall; [cbn; pose proof (w_epoch _ W); lia|apply (w_keys _ W)].
+  - intros u l Hl. rewrite El in Hl. destruct (w_last _ W u l Hl) as [L1 L2]. rewrite Ee. split; [exact L1|].
+    rewrite Eh. destruct (u =? r) eqn:E; [|exact L2]. apply Z.eqb_eq in E. subst u.
+    apply sset_Forall; [cbn; lia|exact L2].
 Qed.
 
 Lemma add_weight_spec st recv w gw aw awh :
@@ -263,15 +279,16 @@ Qed.
 
 (* states that agree on the weight bookkeeping *)
 Definition wsame (st st2 : state) : Prop :=
-  s_epoch st2 = s_epoch st /\ s_gw st2 = s_gw st /\ s_aw st2 = s_aw st /\ s_snap st2 = s_snap st /\ s_awh st2 = s_awh st.
+  s_epoch st2 = s_epoch st /\ s_gw st2 = s_gw st /\ s_aw st2 = s_aw st /\ s_snap st2 = s_snap st /\ s_awh st2 = s_awh st /\
+  s_last st2 = s_last st.
 
 Lemma winv_same st st2 : wsame st st2 -> WInv st -> WInv st2.
 Proof.
-  intros [E1 [E2 [E3 [E4 E5]]]] W. constructor; rewrite ?E1, ?E2, ?E3, ?E4, ?E5; apply W.
+  intros [E1 [E2 [E3 [E4 [E5 E6]]]]] W. constructor; rewrite ?E1, ?E2, ?E3, ?E4, ?E5, ?E6; apply W.
 Qed.
 
 Lemma wsame_with_bal st b : wsame st (with_bal st b).
-Proof. unfold wsame; cbn; auto. Qed.
+Proof. unfold wsame; cbn; repeat split; reflexivity. Qed.
 Lemma wsame_trans a b c : wsame a b -> wsame b c -> wsame a c.
 Proof. unfold wsame. intuition congruence. Qed.
 
@@ -341,7 +358,7 @@ Proof.
   { intros a e. destruct (e <=? s_epoch st) eqn:E; [|right; apply Z.leb_gt in E; lia]. left. apply Z.leb_le in E.
     destruct (a =? sender); [|lia]. rewrite eff_single. destruct (s_epoch st + 1 <=? e) eqn:E2; [apply Z.leb_le in E2; lia|].
     apply eff_nonneg. apply (w_hist_nn _ W). }
-  constructor; cbn [s_epoch s_gw s_aw s_awh s_snap with_bal].
+  constructor; cbn [s_epoch s_gw s_aw s_awh s_snap s_last with_bal].
   - apply (w_gw _ W).
   - apply (w_nodup _ W).
   - apply (w_nonneg _ W).
@@ -356,6 +373,11 @@ Proof.
     eapply Z.le_trans; [|apply (w_share _ W e g Hg L HL)]. apply share_sum_le. intros a.
     destruct (Hle a e) as [H|H]; [|lia]. destruct (e <=? s_epoch st) eqn:E; [exact H|apply Z.leb_gt in E; lia].
   - intros Hn. rewrite Esn in Hn. discriminate.
+  - apply (w_epoch _ W).
+  - intros a. destruct (a =? sender); [|apply (w_keys _ W)]. constructor; [cbn; pose proof (w_epoch _ W); lia|constructor].
+  - intros a l Hl. rewrite aget_aset in Hl. destruct (a =? sender) eqn:E.
+    + inversion Hl; subst l. split; [lia|]. constructor; [cbn; lia|constructor].
+    + destruct (w_last _ W a l Hl) as [L1 L2]. split; assumption.
 Qed.
 
 Lemma snapshot_weights st st2 :
@@ -363,7 +385,7 @@ Lemma snapshot_weights st st2 :
 Proof.
   intros W Hc. apply call_ok in Hc as [st1 [ms [Eh [_ Est]]]]. unfold take_snapshot in Eh.
   destruct (aget (s_epoch st) (s_snap st)) eqn:Esn; [discriminate|]. inversion Eh; subst st1 ms; clear Eh. rewrite Est.
-  constructor; cbn [s_epoch s_gw s_aw s_awh s_snap with_bal]; try apply W.
+  constructor; cbn [s_epoch s_gw s_aw s_awh s_snap s_last with_bal]; try apply W.
   - apply aset_Forall; [|apply (w_snap _ W)]. cbn. split; [lia|]. rewrite (w_gw _ W). apply vals_sum_nonneg. apply (w_nonneg _ W).
   - intros e g Hg L HL. rewrite aget_aset in Hg. destruct (e =? s_epoch st) eqn:E.
     + apply Z.eqb_eq in E. subst e. inversion Hg; subst g. apply snapshot_covers; assumption.
@@ -375,11 +397,13 @@ Lemma new_epoch_weights st e :
   WInv st -> e = s_epoch st + 1 ->
   WInv (mkState e (s_bal st) (s_flows st) (s_counter st) (s_open st) (s_closed st) (s_gw st) (s_aw st) (s_snap st) (s_awh st) (s_last st)).
 Proof.
-  intros W ->. constructor; cbn [s_epoch s_gw s_aw s_awh s_snap]; try apply W.
+  intros W ->. constructor; cbn [s_epoch s_gw s_aw s_awh s_snap s_last]; try apply W.
   - intros u. eapply wh_ok_mono; [|apply (w_hist _ W)]. lia.
   - intros u. unfold eff. rewrite (eff_acc_beyond (s_epoch st + 1) _ (w_hist _ W u)) by lia. apply (w_next _ W).
   - eapply Forall_impl; [|apply (w_snap _ W)]. cbn. intros; lia.
   - intros _ u. rewrite (w_next _ W). lia.
+  - pose proof (w_epoch _ W). lia.
+  - intros u l Hl. destruct (w_last _ W u l Hl) as [L1 L2]. split; [lia|exact L2].
 Qed.
 
 (* operations that do not touch the weight bookkeeping *)
@@ -394,17 +418,17 @@ Proof.
     apply bind_ok in Eh as [u0 [_ Eh]]. apply bind_ok in Eh as [[a1 m1] [_ Eh]]. apply bind_ok in Eh as [u1 [_ Eh]].
     apply bind_ok in Eh as [[a2 m2] [_ Eh]]. apply bind_ok in Eh as [dflt [_ Eh]]. apply bind_ok in Eh as [u2 [_ Eh]].
     apply bind_ok in Eh as [u3 [_ Eh]]. apply bind_ok in Eh as [lim [_ Eh]]. apply bind_ok in Eh as [u4 [_ Eh]].
-    apply bind_ok in Eh as [id [_ Eh]]. inversion Eh; subst. unfold wsame; cbn; auto.
+    apply bind_ok in Eh as [id [_ Eh]]. inversion Eh; subst. unfold wsame; cbn; repeat split; reflexivity.
   - apply call_ok in Hstep as [st1 [ms [Eh [_ Est]]]]. rewrite Est. unfold expand_flow in Eh.
     destruct (find_flow x (s_flows st)); [|discriminate].
     apply bind_ok in Eh as [u0 [_ Eh]]. apply bind_ok in Eh as [u1 [_ Eh]]. apply bind_ok in Eh as [ms0 [_ Eh]].
     apply bind_ok in Eh as [eu [_ Eh]]. apply bind_ok in Eh as [u2 [_ Eh]]. apply bind_ok in Eh as [next [_ Eh]].
     apply bind_ok in Eh as [f3 [_ Eh]]. apply bind_ok in Eh as [u3 [_ Eh]]. apply bind_ok in Eh as [u4 [_ Eh]].
-    inversion Eh; subst. unfold wsame; cbn; auto.
+    inversion Eh; subst. unfold wsame; cbn; repeat split; reflexivity.
   - apply call_ok in Hstep as [st1 [ms [Eh [_ Est]]]]. rewrite Est. unfold close_flow in Eh.
-    destruct (find_flow x (s_flows st)); [|discriminate]. apply bind_ok in Eh as [u0 [_ Eh]]. inversion Eh; subst. unfold wsame; cbn; auto.
+    destruct (find_flow x (s_flows st)); [|discriminate]. apply bind_ok in Eh as [u0 [_ Eh]]. inversion Eh; subst. unfold wsame; cbn; repeat split; reflexivity.
   - apply call_ok in Hstep as [st1 [ms [Eh [_ Est]]]]. rewrite Est. unfold withdraw in Eh.
-    apply bind_ok in Eh as [u0 [_ Eh]]. destruct (_ =? 0); inversion Eh; subst; unfold wsame; cbn; auto.
+    apply bind_ok in Eh as [u0 [_ Eh]]. destruct (_ =? 0); inversion Eh; subst; unfold wsame; cbn; repeat split; reflexivity.
 Qed.
 
 (* the helper's staking call: same weight state as before, unsigned amount *)
@@ -433,13 +457,13 @@ Proof.
   - apply bind_ok in Hstep as [e [Ee H]]. apply padd_ok in Ee. inversion H; subst. apply new_epoch_weights; [exact W|reflexivity].
   - eapply snapshot_weights; eauto.
   - eapply claim_weights; eauto.
-  - eapply (position_weights c st st sender fs al amount d receiver st2 true); eauto. unfold wsame; auto.
-  - eapply (position_weights c st st sender fs al amount d receiver st2 false); eauto. unfold wsame; auto.
+  - eapply (position_weights c st st sender fs al amount d receiver st2 true); eauto. unfold wsame; repeat split; reflexivity.
+  - eapply (position_weights c st st sender fs al amount d receiver st2 false); eauto. unfold wsame; repeat split; reflexivity.
   - eapply close_weights; eauto.
   - apply bind_ok in Hstep as [[[r b6] lpb] [Eh Hstep]].
     pose proof (helper_deposit_amount _ _ _ _ _ _ _ _ _ _ _ _ _ _ _ _ _ _ Eh) as Hl.
     set (st1 := mkState (s_epoch st) b6 (s_flows st) (s_counter st) (s_open st) (s_closed st) (s_gw st) (s_aw st) (s_snap st) (s_awh st) (s_last st)) in *.
-    assert (Hs : wsame st st1) by (unfold wsame, st1; cbn; auto).
+    assert (Hs : wsame st st1) by (unfold wsame, st1; cbn; repeat split; reflexivity).
     unfold helper_deposit in Eh.
     apply bind_ok in Eh as [u0 [_ H]]. apply bind_ok in H as [b0 [_ H]]. apply bind_ok in H as [b1 [_ H]].
     apply bind_ok in H as [b2 [_ H]]. apply bind_ok in H as [u1 [_ H]]. apply bind_ok in H as [b3 [_ H]].
@@ -451,9 +475,9 @@ Proof.
     + eapply (position_weights c st st1 HELPER [] _ _ dur (Some user) st2 true); eauto.
 Qed.
 
-Lemma init_winv e b : WInv (init_state e b).
+Lemma init_winv e b : 0 <= e -> WInv (init_state e b).
 Proof.
-  constructor; cbn [init_state s_gw s_aw s_awh s_snap s_epoch].
+  intros He. constructor; cbn [init_state s_gw s_aw s_awh s_snap s_epoch s_last].
   - reflexivity.
   - constructor.
   - constructor.
@@ -464,6 +488,9 @@ Proof.
   - intros e0 g Hg L HL. cbn in Hg. destruct (e =? e0); [|discriminate]. inversion Hg; subst.
     unfold share_sum. clear. induction L; cbn; [lia|]. unfold eff in *. cbn in *. lia.
   - cbn. rewrite Z.eqb_refl. discriminate.
+  - exact He.
+  - intros u. constructor.
+  - intros u l Hl. discriminate.
 Qed.
 
 Theorem history_winv c h : forall st, Forall op_wf_w h -> WInv st -> WInv (run_history v_fixed c st h).
